@@ -39,7 +39,10 @@ ALLOWED_DERIVES = ['Clone', 'Copy', 'PartialEq', 'Eq']
 
 
 class Gen:
-    def __init__(self, unit, repo=REPO, vacuity=False, case=None):
+    def __init__(self, unit, repo=REPO, vacuity=False, case=None, lift=None):
+        # R17: names Verus could not resolve in a first pass (helpers / constants a refactoring introduced)
+        self.lift = set(lift or [])
+        self.lifted = []
         self.unit = unit
         self.vacuity = vacuity
         self.case = case            # (fn key, case index) when generating a case-split twin
@@ -460,6 +463,120 @@ class Gen:
             head = '#[derive(%s)]\n' % ', '.join(keep)
         self.emit(head + body.strip('\n'), ('src', '%s:%d' % (rel, text.count('\n', 0, it.start) + 1)))
 
+    # ---------------------------------------------------------------- R17: helpers a refactoring introduced
+    def find_helper(self, text, mask, impl, name):
+        """the definition of `name`: in the caller's impl, in any other impl of the file, or a free fn of the file"""
+        cands = []
+        if impl != '-':
+            try:
+                cands.append((impl, rsx.find_in_impl(text, mask, impl, 'fn', name)))
+            except ExtractError:
+                pass
+        if not cands:
+            for it in rsx.items(text, mask):
+                if it.kind == 'impl':
+                    for sub in rsx.items(text, mask, it.body_open + 1, it.end - 1):
+                        if sub.kind == 'fn' and sub.name == name:
+                            cands.append((it.name, sub))
+                elif it.kind == 'fn' and it.name == name:
+                    cands.append(('-', it))
+        return cands[0] if len(cands) == 1 else None
+
+    def inline_helpers(self, body, rel, impl, where, depth=0):
+        """R17: a call of a private helper that is not under contract (`self.h(a)`, `Self::h(a)`, `h(a)`) is replaced by the
+        helper's body in a block that first binds the arguments to the parameters: `{ let p: T = a; <body> }`. Exact when the
+        body has no `return`, the helper is not generic or recursive, its parameters are plain identifiers, and every `?` in
+        it is re-raised by a `?` at the call site (then the early exit leaves the caller with the same value)."""
+        if not self.lift or depth > 3:
+            return body
+        text, mask = self.src(rel)
+        changed = True
+        rounds = 0
+        while changed and rounds < 8:
+            changed = False
+            rounds += 1
+            bm = rsx.code_mask(body)
+            for name in sorted(self.lift):
+                hits = [m for m in re.finditer(r'(?:\bself\s*\.\s*|\bSelf\s*::\s*|(?<![\w.:]))' + re.escape(name) + r'\s*\(', body) if bm[m.start()] and bm[m.end() - 1]]
+                if not hits:
+                    continue
+                m = hits[-1]
+                found = self.find_helper(text, mask, impl, name)
+                if not found:
+                    continue
+                himpl, it = found
+                try:
+                    attrs, sig, hbody = rsx.split_fn(text, mask, it)
+                except ExtractError:
+                    continue
+                hm = rsx.code_mask(hbody)
+                def code_has(pat):
+                    return any(hm[x.start()] for x in re.finditer(pat, hbody))
+                if code_has(r'\breturn\b') or re.search(r'\bfn\s+' + re.escape(name) + r'\s*<', sig) or code_has(r'\b' + re.escape(name) + r'\s*\('):
+                    continue
+                prefix = body[m.start():m.end()]
+                is_method = prefix.lstrip().startswith('self')
+                close = rsx.match_close(body, bm, m.end() - 1)
+                args = [a.strip() for a in rsx.split_top_commas(body[m.end():close]) if a.strip()]
+                pm = re.search(r'\((.*)\)', sig[sig.index(name):], re.S)
+                # parameter list: text between the parens that follow the name (code-aware)
+                sm = rsx.code_mask(sig)
+                po = sig.index('(', sig.index(name))
+                pc = rsx.match_close(sig, sm, po)
+                params = [q.strip() for q in rsx.split_top_commas(sig[po + 1:pc]) if q.strip()]
+                has_self = bool(params) and re.match(r'^(&\s*(mut\s+)?)?(mut\s+)?self$', params[0].replace("'_ ", ''))
+                if has_self:
+                    if not is_method or re.match(r'^(mut\s+)?self$', params[0]):
+                        continue        # by-value self or a call through another receiver: not handled
+                    params = params[1:]
+                elif is_method:
+                    continue
+                if len(params) != len(args):
+                    continue
+                binds = []
+                ok = True
+                for k, (q, a) in enumerate(zip(params, args)):
+                    qm = re.match(r'^(mut\s+)?([A-Za-z_]\w*)\s*:\s*(.+)$', q, re.S)
+                    if not qm:
+                        ok = False
+                        break
+                    binds.append((qm.group(1) or '', qm.group(2), qm.group(3).strip(), a))
+                if not ok:
+                    continue
+                if code_has(r'\?'):
+                    after = body[close + 1:close + 8].lstrip()
+                    if not after.startswith('?'):
+                        continue
+                inner = self.inline_helpers(hbody, rel, himpl, where, depth + 1) if depth < 3 else hbody
+                block = '{ ' + ' '.join('let verif_arg%d: %s = %s;' % (k, t, a) for k, (mu, pn, t, a) in enumerate(binds)) + ' ' + \
+                    ' '.join('let %s%s: %s = verif_arg%d;' % (mu, pn, t, k) for k, (mu, pn, t, a) in enumerate(binds)) + ' ' + inner + ' }'
+                body = body[:m.start()] + block + body[close + 1:]
+                self.bump('R17.helper_inlined')
+                self.lifted.append('%s inlined into %s' % (name, where))
+                changed = True
+                break
+        return body
+
+    def lift_consts(self):
+        """R17: `const NAME: T = <literal expression>;` items a refactoring introduced, found anywhere under src/"""
+        out = []
+        for name in sorted(self.lift):
+            if not re.match(r'^[A-Z][A-Z0-9_]*$', name):
+                continue
+            for root, _d, files in os.walk(os.path.join(self.repo, 'src')):
+                for fn in files:
+                    if not fn.endswith('.rs'):
+                        continue
+                    t = open(os.path.join(root, fn), encoding='utf-8').read()
+                    mk = rsx.code_mask(t)
+                    for m in re.finditer(r'\bconst\s+' + re.escape(name) + r'\s*:\s*([^=;]+)=\s*([^;]+);', t):
+                        if mk[m.start()] and not any(x[0] == name for x in out):
+                            out.append((name, 'const %s: %s = %s;' % (name, m.group(1).strip(), m.group(2).strip())))
+        for name, text in out:
+            self.emit(text, ('src', 'const %s (R17)' % name))
+            self.bump('R17.const_lifted')
+            self.lifted.append('const %s' % name)
+
     def do_fn(self, args, kv, block):
         rel, impl, name = args[:3]
         text, mask = self.src(rel)
@@ -564,6 +681,8 @@ class Gen:
             sig2 = self.name_return(sig2, kv['ret'])
         # ---- body
         body2 = body
+        if self.lift and 'assumed' not in kv and 'ext' not in kv:
+            body2 = self.inline_helpers(body2, rel, impl, where)
         if 'nomacro' not in kv:
             body2 = self.rewrite_macros(body2)
         if mut_self:
@@ -651,9 +770,15 @@ class Gen:
             elif s.startswith('//@smt_option'):
                 self.smt_options.append(s.split()[1])
             elif s.startswith('//@item'):
+                if self.lift and not getattr(self, '_consts_done', False):
+                    self._consts_done = True
+                    self.lift_consts()
                 args, kv = parse_args(s[len('//@item'):])
                 self.do_item(args, kv)
             elif s.startswith('//@fn'):
+                if self.lift and not getattr(self, '_consts_done', False):
+                    self._consts_done = True
+                    self.lift_consts()
                 args, kv = parse_args(s[len('//@fn'):])
                 block = []
                 i += 1
@@ -692,9 +817,9 @@ def generate_vacuity(unit, outdir, repo=REPO, fn_key=None):
     return generate(unit, outdir, repo, vacuity=fn_key)
 
 
-def generate(unit, outdir, repo=REPO, vacuity=False, case=None):
+def generate(unit, outdir, repo=REPO, vacuity=False, case=None, lift=None):
     tpl = os.path.join(VERIF, 'verus', 'units', unit + '.rs')
-    g = Gen(unit, repo, vacuity, case)
+    g = Gen(unit, repo, vacuity, case, lift)
     text = g.run(tpl)
     os.makedirs(outdir, exist_ok=True)
     tag = ''
@@ -706,7 +831,7 @@ def generate(unit, outdir, repo=REPO, vacuity=False, case=None):
     open(out, 'w', encoding='utf-8').write(text)
     meta = {'unit': unit, 'file': out, 'rules': g.rules, 'slices': g.slices, 'funcs': g.funcs,
             'dropped_statements': g.dropped, 'origin': g.origin, 'smt_options': g.smt_options, 'case_splits': g.case_splits,
-            'shared_contracts': g.shared_contracts}
+            'shared_contracts': g.shared_contracts, 'lifted': g.lifted}
     return out, meta
 
 
